@@ -345,6 +345,7 @@ func shrinkFO(sc *Scenario, yield func(c *Scenario) bool) {
 			c.Cfg.ObserveMutability = false
 			return ok
 		},
+		func(c *FOScenario) bool { ok := c.Cfg.ObserveMutability; c.Cfg.ObserveMutability = false; return ok },
 		func(c *FOScenario) bool { ok := c.ValRep != ""; c.ValRep = ""; return ok },
 		func(c *FOScenario) bool { ok := c.WrapBackendErrs; c.WrapBackendErrs = false; return ok },
 		func(c *FOScenario) bool { ok := c.Cfg.SyncRead; c.Cfg.SyncRead = false; return ok },
